@@ -43,11 +43,14 @@ Theorem concat_docs : forall o w0 dws, all_ws w0 -> Forall doc_ok dws -> seps_ok
 Proof. exact concat_docs_lemma. Qed.
 Print Assumptions concat_docs.
 
-(* (b) on the fragment frag15 (1-d numeric NumpyArray, ListOffset/List/Regular, Indexed, IndexedOption,
-   ByteMasked, BitMasked, Unmasked, Record incl. tuples, Empty), for uint64 data below 2^63:
-   the events of to_json fold back into to_list up to the documented rendering jv.
-   Full statement (not proved): the same for every c with [Valid None c], i.e. also strings/bytestrings
-   (Par), UnionArray and n-d NumpyArray. *)
+(* (b) on the fragment frag15 -- 1-d numeric NumpyArray, ListOffset/List/Regular, Indexed, IndexedOption,
+   ByteMasked, BitMasked, Unmasked, Record incl. tuples and __record__ names, Union, Empty, strings and
+   bytestrings (list node over a 1-d uint8 char/byte NumpyArray, the shape validityerror accepts) -- and for
+   uint64 data below 2^63: the events of to_json fold back into to_list up to the documented rendering jv
+   (VStr -> string, VTup -> object keyed "0","1",..., nan/inf -> the chosen strings).
+   Missing from the full statement (every c with [Valid None c]): n-d NumpyArray (shape of rank > 1) and
+   __array__ values other than string/bytestring on valid nodes (categorical). The hypothesis u64ok cannot
+   be dropped: Example tojson_value_refuted_uint64 (known finding c15-uint64-wraps). *)
 Theorem tojson_value_partial : forall o c vs, frag15 c = true -> u64ok c = true -> to_list c = Ok vs ->
   exists evs, tojson_events o c = Ok evs /\ json_value evs = Ok (VList (map (jv o) vs), []).
 Proof. exact tojson_value_frag. Qed.
